@@ -13,7 +13,7 @@ oracle: the clauses of the property evaluated directly on the implementation's
 import math
 from fractions import Fraction
 
-from harness.core import coq_bool, coq_eval_cases, coq_list, q_lit, run_impl
+from harness.core import safe_fraction, coq_bool, coq_eval_cases, coq_list, q_lit, run_impl
 
 HEADER = ("From Coq Require Import QArith Qabs List Bool ZArith.\nFrom SV Require Import model.Interp.\n"
           "Import ListNotations.\nOpen Scope Q_scope.\n")
@@ -26,8 +26,9 @@ def hx(x):
 
 
 def fq(x):
-    """exact rational literal of a float"""
-    return q_lit(Fraction(float(x)))
+    """exact rational of a float; NaN / inf (which no model value is close to) become 10^300 so that the comparison
+    fails inside Coq instead of crashing the harness"""
+    return q_lit(safe_fraction(x))
 
 
 def linspace(a, b, n):
